@@ -4,6 +4,7 @@ import IblVerif.Model.Stack
 import IblVerif.Model.SmoothIdx
 import IblVerif.Model.Savgol
 import IblVerif.Model.Cadzow
+import IblVerif.Model.C20CadzowNp1
 open IblVerif IblVerif.Proto
 
 /-! Line protocol of C20.  Parsing/printing only, plus the stand-ins for the external components
@@ -47,6 +48,15 @@ def showVennRes : Venn.Res (List Nat) → String
   | .ok r => "ok " ++ showList r
   | .err e => "err " ++ e
 
+/-- `scipy.signal.windows.hann(2 ovx - 1)[t]` in double arithmetic (closed form; compared to 1e-12). -/
+def hannF (ovx t : Nat) : Float :=
+  0.5 - 0.5 * Float.cos (2.0 * 3.141592653589793 * t.toFloat / (2 * ovx - 2).toFloat)
+
+def showKind : CadzowNp1.Kind → String
+  | .first => "first"
+  | .last => "last"
+  | .mid => "mid"
+
 def nanOrF (s : String) : Option (Option Float) := if s = "n" then some none else (f64? s).map some
 
 def step (t : List String) : String :=
@@ -56,6 +66,12 @@ def step (t : List String) : String :=
     | some sbin, some cbin, some fs, some nch, some chunk, some sp =>
       showVennRes (Venn.vennDefaults sp sbin cbin fs nch chunk)
     | _, _, _, _, _, _ => "bad-op"
+  | "venng" :: sbin :: cbin :: fs :: nch :: sorters =>
+    -- the chunk-free dictionary (global bin grid): what every chunk size that is a multiple of the bin size returns
+    match nat? sbin, nat? cbin, nat? fs, nat? nch, sorters.mapM (fun s => (natList? s).bind pairs) with
+    | some sbin, some cbin, some fs, some nch, some sp =>
+      showVennRes (Venn.vennGlobal sp (if sbin = 0 then Venn.defaultSbin fs else sbin) cbin nch)
+    | _, _, _, _, _ => "bad-op"
   | "stack" :: agg :: ns :: word :: rows =>
     match nat? ns, intList? word, intRows rows with
     | some ns, some word, some rows =>
@@ -149,6 +165,33 @@ def step (t : List String) : String :=
     match intList? x, intList? y, nat? r with
     | some x, some y, some r => if Cadzow.derankRankOk (Cadzow.trajectory x y) r then "ok" else "err IndexError"
     | _, _, _ => "bad-op"
+  | ["lpadq", n, num, den] =>
+    match nat? n, nat? num, nat? den with
+    | some n, some num, some den => s!"ok {Smooth.lpadRat n num den}"
+    | _, _, _ => "bad-op"
+  | ["sbinq", fs] =>
+    match nat? fs with
+    | some fs => s!"ok {Venn.defaultSbinQ fs} {Venn.defaultSbin fs}"
+    | _ => "bad-op"
+  | ["nchunks", mx, chunk, ch] =>
+    match nat? mx, nat? chunk, nat? ch with
+    | some mx, some chunk, some ch => s!"ok {Venn.numChunks mx chunk} {Venn.chunkOffset ch chunk}"
+    | _, _, _ => "bad-op"
+  | ["trajshape", n] =>
+    match nat? n with
+    | some n => s!"ok {Cadzow.nrows n} {Cadzow.ncols n}"
+    | _ => "bad-op"
+  | ["np1", ntr, nswx, ovx, npad] =>
+    match nat? ntr, nat? nswx, nat? ovx, nat? npad with
+    | some ntr, some nswx, some ovx, some npad =>
+      match CadzowNp1.windows ntr nswx ovx npad with
+      | .err e => "err " ++ e
+      | .ok ws =>
+        "ok win=" ++ (if ws.isEmpty then "-" else ";".intercalate (ws.map fun w => s!"{w.1},{w.2.1},{showKind w.2.2}")) ++
+        " gw=" ++ (if ws.isEmpty then "-" else ";".intercalate (ws.map fun w =>
+          showF64s ((List.range nswx).map (CadzowNp1.gw (hannF ovx) nswx ovx w.2.2)))) ++
+        " weights=" ++ showF64s (CadzowNp1.outputWeights (hannF ovx) ntr nswx ovx npad)
+    | _, _, _, _ => "bad-op"
   | ["imax", ns, imax] =>
     match nat? ns, nat? imax with
     | some ns, some imax => s!"ok {Cadzow.imaxOf ns imax}"
